@@ -524,14 +524,14 @@ class _GuardAware:
                     continue
                 if rec is not None and not str(rec.get('file', '')).startswith(prog.repo):
                     continue
-                guardish = '<' in t and rec is None
+                guardish = '<' in t and rec is None and known.base_name(t) not in known.recs and known.base_name(t) not in known.comp
                 if rec is not None:
                     # a guard is constructed over what it guards: a constructor with a non-const reference parameter, or a user destructor
                     ms = prog.methods_of(rec['name'])
                     by_ref = any(m.kind == 'ctor' and any((p_.get('type') or '').rstrip().endswith('&') and not (p_.get('type') or '').startswith('const') for p_ in m.params)
                                  for m in ms)
                     has_dtor = any(m.kind == 'dtor' for m in ms)
-                    guardish = (by_ref or has_dtor) and t not in known.recs
+                    guardish = (by_ref or has_dtor) and known.base_name(t) not in known.recs and known.base_name(t) not in known.comp
                 if guardish:
                     self._opaque.setdefault(f.name, t)
 
@@ -539,7 +539,8 @@ class _GuardAware:
         return getattr(self._chk, name)
 
     def ob(self, rule, fn, site, ok, detail='', key=None, nontrivial=True, path=None):
-        if not ok and getattr(fn, 'name', None) in self._opaque:
+        import os as _os
+        if not ok and getattr(fn, 'name', None) in self._opaque and not _os.environ.get('BLOCHSA_SHOW_OPAQUE'):
             raise AnalysisBroken('%s keeps its context in the scope guard %s, which this rule cannot read: %s is not decided for it'
                                  % (getattr(fn, 'short', fn), self._opaque[fn.name], rule))
         return self._chk.ob(rule, fn, site, ok, detail, key=key, nontrivial=nontrivial, path=path)
@@ -574,6 +575,12 @@ def _return_context_rule(prog, chk, fns, rule='R16.G'):
         for m in members:
             n += 1
             sets = [x for x in SX.walk(f.body, into_lambdas=False) for w in [SX.write_target(x)] if w and w[2] == '=' and SX.is_this_member(SX.strip(w[0]), m)]
+            if not sets:
+                # … or through a scope guard whose constructor sets the member (K-GUARD: `CallableContextGuard context(*this, …, returnType);`)
+                from ..kguard import Guards
+                KG_ = getattr(prog, '_kguards', None) or Guards(prog)
+                prog._kguards = KG_
+                sets = [e_ for e_ in KG_.effects(f) if e_['member'] == m]
             chk.ob(rule, f, f.ln, bool(sets),
                    'visit(%s) analyses a body of statements but does not set %s, which visit(ReturnStatement) decides from: returns in that body are checked against what the last callable '
                    'left behind' % (tn.split('::')[-1], m), key='return-context:%s:%s' % (tn.split('::')[-1], m))
@@ -738,6 +745,47 @@ def _context_discipline(prog, chk, fns):
     for ms_ in guard_members.values():
         saved_somewhere |= ms_
         restored |= ms_
+    # guards K-GUARD summarises — also generic ones (`SavedValue<T> keep(m_x);` restores whatever it was constructed over) and guards
+    # composed of such members: the members a declaration guards are read off its constructor arguments
+    from ..kguard import Guards
+    KG = Guards(prog)
+
+    def guarded_by_decl(v):
+        i = SX.strip(v.get('init')) if SX.is_node(v.get('init')) else None
+        if not (SX.is_node(i) and i.get('k') == 'construct'):
+            return set()
+        tn = KG.base_name(i.get('type'))
+        if tn in KG.recs:
+            rec_, ctors_, dtor_ = KG.recs[tn]
+        elif tn in KG.comp:
+            (rec_, ctors_), dtor_ = KG.comp[tn], None
+        else:
+            return set()
+        args = i.get('args', [])
+        cs = [c for c in ctors_ if len(c.params) == len(args)]
+        if len(cs) != 1:
+            return set()
+        out = set()
+        for pi, path in KG.restores(cs[0], dtor_):
+            if pi >= len(args):
+                continue
+            a = SX.strip(args[pi])
+            while SX.is_node(a) and a.get('k') == 'un' and a.get('op') == '*':
+                a = SX.strip(a.get('e'))
+            if SX.is_node(a) and a.get('k') == 'this' and len(path) == 1:
+                out.add(path[0])
+            elif SX.is_this_member(a) and not path:
+                out.add(a['name'])
+        return out
+    kg_decl = {}
+    for f in meths:
+        for v in SX.walk(f.body, into_lambdas=False):
+            if v.get('k') == 'var':
+                ms_ = guarded_by_decl(v)
+                if ms_:
+                    kg_decl[id(v)] = ms_
+                    saved_somewhere |= ms_
+                    restored |= ms_
     ctx = saved_somewhere & restored
     chk.count('analyser context members (saved and restored somewhere)', len(ctx), 5)
     nsite = 0
@@ -799,7 +847,7 @@ def _context_discipline(prog, chk, fns):
                 continue
             nsite += 1
             key = 'context:%s:%s' % (_fkey(f), m)
-            gdecls = [d for d in g.nodes if d.kind == 'decl' and m in guard_members.get((d.e.get('type') or '').replace('const ', '').strip(), set())]
+            gdecls = [d for d in g.nodes if d.kind == 'decl' and (m in guard_members.get((d.e.get('type') or '').replace('const ', '').strip(), set()) or m in kg_decl.get(id(d.e), set()))]
             if gdecls:
                 okg = all(any(g.dominates(d, n) for d in gdecls) for n, l, r in sets)
                 chk.ob('R16.D', f, sets[0][0].ln or f.ln, okg, '%s sets %s for the body it analyses; a context guard declared before the write saves it and restores it on every exit%s' % (
@@ -826,6 +874,16 @@ def _context_discipline(prog, chk, fns):
                     ok, why = False, 'after the write at line %s a normal path reaches the end of the visitor without restoring the saved value' % n.ln
             chk.ob('R16.D', f, sets[0][0].ln or f.ln, ok, '%s sets %s for the body it analyses; saved first and restored on every normal exit%s' % (
                 _fkey(f), m, '' if ok else ': ' + why), key=key)
+    # a member *set* by the constructor of a scope guard (K-GUARD) is restored by that guard: by its destructor, or by the member guard it
+    # holds over the same member — otherwise whatever is analysed afterwards sees what the guard left behind
+    for f in meths:
+        for e_ in KG.effects(f):
+            if e_['member'] not in ctx:
+                continue
+            nsite += 1
+            chk.ob('R16.D', f, e_['decl'].get('ln', f.ln), bool(e_['restored']),
+                   '%s: the scope guard `%s` sets %s for the body; the guard restores it when it goes out of scope%s' % (
+                       _fkey(f), e_['decl'].get('name'), e_['member'], '' if e_['restored'] else ' — it does not'), key='context:%s:%s:guard' % (_fkey(f), e_['member']))
     chk.count('visitor × context-member sites', nsite, 10)
 
 
